@@ -620,9 +620,14 @@ def rm_patterns(seed):
         if rnd.random() < 0.3:
             # a full-path pattern
             e = rnd.choice(ents)
-            pat = os.fsdecode(os.path.dirname(e['abs'])) + '/' + rand_pattern(rnd, [os.path.basename(e['abs'])])
-            if rnd.random() < 0.3:
+            r = rnd.random()
+            if r < 0.4:
+                pat = os.fsdecode(os.path.dirname(e['abs'])) + '/' + rand_pattern(rnd, [os.path.basename(e['abs'])])
+            elif r < 0.6:
                 pat = '/*' + rand_pattern(rnd, [os.path.basename(e['abs'])])
+            else:
+                # metacharacters anywhere in the path, also in the part that names the volume
+                pat = '/' + rand_pattern(rnd, [e['abs'][1:]])
         else:
             pat = rand_pattern(rnd, names)
             if pat.startswith('/'):
